@@ -69,6 +69,28 @@ def changeActiveStored {M : Type} (merge : M → M → M × M) (after : M → M 
     let (h2, d) := valueSet merge after h active r
     { heap := h2, active := d, result := some d }
 
+/-- `Model.SetActiveMode(mode)` (the exported Go entry point, round 8): the id must be known, then the CALLER's message
+is the source of `activeMode.Set` (no interceptor, "the mode.StartTime will not be set for you"). `idOf` reads the id
+of a message. The result is the new active mode (the Go function returns only the error). -/
+def setActive {M : Type} (idOf : M → String) (merge : M → M → M × M) (h : H M) (modes : Store) (active src : Nat) : Res M :=
+  match find modes (idOf (h.cells src)) with
+  | none => { heap := h, active := active, result := none }
+  | some _ =>
+    let (h2, d) := valueSet merge (fun _ n => n) h active src
+    { heap := h2, active := d, result := some d }
+
+/-- the shape of seeded change C07-20 ("activate the mode as it is known"): the caller's start time is written onto
+the LOOKED-UP mode, a clone of which is then the source of the write -/
+def setActiveKnown {M : Type} (idOf : M → String) (withStart : M → M → M) (merge : M → M → M × M) (h : H M)
+    (modes : Store) (active src : Nat) : Res M :=
+  match find modes (idOf (h.cells src)) with
+  | none => { heap := h, active := active, result := none }
+  | some r =>
+    let h1 := h.set r (withStart (h.cells r) (h.cells src))
+    let (h2, c) := h1.alloc (h1.cells r)
+    let (h3, d) := valueSet merge (fun _ n => n) h2 active c
+    { heap := h3, active := d, result := some d }
+
 /-! ### the concrete instance the driver runs: an `ElectricMode` as (id, title, description, start time set) and
 `FieldUpdater.Merge` with optional writable fields over {id, title, description} -/
 
@@ -149,6 +171,41 @@ def handleActive (toks : List String) : String :=
       let (h', outs) := runCalls w store h 0 0 (ids.splitOn ",") []
       ",".intercalate outs ++ "|modes=" ++ ";".intercalate (store.map fun kr => showMode (h'.cells kr.2))
     | _, _, _ => "!bad-op"
+  | _ => "!bad-op"
+
+/-- `id:title:descr:start` (`-` = no start time) -/
+def parseModeS? (s : String) : Option EMode :=
+  match s.splitOn ":" with
+  | [a, b, c, d] => if d = "-" then some ⟨a, b, c, 0⟩ else d.toNat?.map fun n => ⟨a, b, c, n⟩
+  | _ => none
+
+/-- the `SetActiveMode` calls of a script; cell `src` of call `k` is the caller's message -/
+def runSets (w : Option WMask) (modes : Store) : H EMode → Nat → List Nat → List String → H EMode × List String
+  | h, _, [], out => (h, out.reverse)
+  | h, active, src :: rest, out =>
+    let r := setActive (·.id) (mergeE w) h modes active src
+    let o := match r.result with
+      | some d => showMode (r.heap.cells d)
+      | none => "nf"
+    runSets w modes r.heap r.active rest (o :: out)
+
+/-- `rim setactive <w> <active mode> <mode;mode|-> <mode:start,mode:start>`: cell 0 is the initial active mode, cells
+1..n the stored modes, the following cells the caller's messages, one per call → per `SetActiveMode` call the active
+mode afterwards (`nf` = not found), `|modes=` the stored modes afterwards, `|own=` the caller's messages afterwards -/
+def handleSetActive (toks : List String) : String :=
+  match toks with
+  | [w, act, ms, calls] =>
+    match parseW? w, parseMode? act, (if ms = "-" then some [] else (ms.splitOn ";").mapM parseMode?),
+        (calls.splitOn ",").mapM parseModeS? with
+    | some w, some act, some ms, some cs =>
+      let all := act :: (ms ++ cs)
+      let h : H EMode := { cells := fun x => all.getD x ⟨"", "", "", 0⟩, next := all.length }
+      let store : Store := (List.range ms.length).map fun i => ((ms.getD i ⟨"", "", "", 0⟩).id, i + 1)
+      let srcs := (List.range cs.length).map (· + ms.length + 1)
+      let (h', outs) := runSets w store h 0 srcs []
+      ",".intercalate outs ++ "|modes=" ++ ";".intercalate (store.map fun kr => showMode (h'.cells kr.2)) ++
+        "|own=" ++ ";".intercalate (srcs.map fun c => showMode (h'.cells c))
+    | _, _, _, _ => "!bad-op"
   | _ => "!bad-op"
 
 end ScVerif.C07.Rim5
